@@ -13,6 +13,8 @@ structure DecSlot where
   st : DecState := DecState.empty
   eps : List Ep := []
   last : List Packet := []
+  /-- pending table of the low-level decoder model (DecoderLL.lean), driven by `feedll` -/
+  tbl : Table := []
 
 structure DState where
   tpls : List (String × Payload) := []
@@ -347,6 +349,15 @@ def stepLine (s : DState) (w : List String) : DState × String :=
         | [] => acc) (slot, [])
       ({ s with decs := upsert s.decs d r.1 }, "sel " ++ " | ".intercalate r.2)
     | ["pending"] => (s, showPending slot)
+    | ["feedll", hx] =>
+      match parseBytes hx with
+      | none => (s, "bad-op")
+      | some b =>
+        let r := decodeLL slot.tbl (some b)
+        ({ s with decs := upsert s.decs d { slot with tbl := r.1, last := r.2 } }, showPackets r.2)
+    | ["pendingll"] =>
+      let l := (slot.tbl.map fun x => (x.1, x.2.payload.length)).foldr insertSorted []
+      (s, s!"pending {l.length}" ++ String.join (l.map fun x => s!" {x.1.1}:{x.1.2}:{x.2}"))
     | ["access"] =>
       let items := slot.last.map fun p =>
         match p.payload with
